@@ -64,6 +64,7 @@ type execDouble struct {
 	start  time.Time
 	finals []uint64
 	execs  []uint64
+	starts map[string][]time.Time // when each call of a kind was entered
 }
 
 func initRoot(chainID string) []byte { h := sha256.Sum256([]byte("c13-init:" + chainID)); return h[:] }
@@ -80,6 +81,28 @@ func execRoot(prev []byte, height uint64, txs [][]byte) []byte {
 		h.Write(tx)
 	}
 	return h.Sum(nil)
+}
+
+func (e *execDouble) started(call string) {
+	e.mu.Lock()
+	if e.starts == nil {
+		e.starts = map[string][]time.Time{}
+	}
+	e.starts[call] = append(e.starts[call], time.Now())
+	e.mu.Unlock()
+}
+
+// startedAfter: how many calls of this kind were entered strictly after t
+func (e *execDouble) startedAfter(call string, t time.Time) int {
+	e.mu.Lock()
+	defer e.mu.Unlock()
+	n := 0
+	for _, x := range e.starts[call] {
+		if x.After(t) {
+			n++
+		}
+	}
+	return n
 }
 
 func (e *execDouble) InitChain(ctx context.Context, genesisTime time.Time, initialHeight uint64, chainID string) ([]byte, uint64, error) {
@@ -105,6 +128,7 @@ func (e *execDouble) GetTxs(ctx context.Context) ([][]byte, error) {
 }
 
 func (e *execDouble) ExecuteTxs(ctx context.Context, txs [][]byte, blockHeight uint64, timestamp time.Time, prev []byte) ([]byte, uint64, error) {
+	e.started("exec.ExecuteTxs")
 	if err := e.c.hang(ctx, "exec.ExecuteTxs"); err != nil {
 		return nil, 0, err
 	}
@@ -121,6 +145,7 @@ func (e *execDouble) ExecuteTxs(ctx context.Context, txs [][]byte, blockHeight u
 }
 
 func (e *execDouble) SetFinal(ctx context.Context, blockHeight uint64) error {
+	e.started("exec.SetFinal")
 	if err := e.c.hang(ctx, "exec.SetFinal"); err != nil {
 		return err
 	}
